@@ -310,13 +310,15 @@ def compile_sim(name, sources, flags=()):
     return compile_cxx(name, sources, flags=flags, mpi='simmpi', extra_dep_hash=sim_dep_hash())
 
 def simrun(exe, n, args=(), ppn=None, seed=1, policy='uniform', env=None, eager=None, logdir=None, glog=None,
-           wall=60, maxsteps=None, spin=None, cwd=None, timeout=None, cyclic=False):
+           wall=60, maxsteps=None, spin=None, cwd=None, timeout=None, cyclic=False, placement=None):
     """Run a harness under simmpi.  Returns dict(verdict, detail, stats, out(lines without RESULT), raw)."""
     cmd = [simrun_exe(), '-n', str(n), '-seed', str(seed), '-policy', policy, '-wall', str(wall)]
     if ppn:
         cmd += ['-ppn', str(ppn)]
     if cyclic:
         cmd += ['-cyclic']
+    if placement:
+        cmd += ['-placement', ','.join(str(x) for x in placement)]
     if eager is not None:
         cmd += ['-eager', str(eager)]
     if logdir:
